@@ -41,6 +41,10 @@ CLAIMED["C10"] = dict(
                "prefix) + source-to-Coq rule translator + extracted-model exhaustive differential correspondence + tiling-oracle search"),
 )
 
+_cj = os.path.join(VERIF, 'vt', 'claims.json')
+if os.path.exists(_cj):
+    CLAIMED.update(json.load(open(_cj)))
+
 NOT_YET = {
 }
 
